@@ -363,6 +363,12 @@ def r12_4(ctx):
                 ok = iv is not None and iv[0] == iv[1] == 0
                 ctx.check(ok, p.fq, f"{label}: {short(o.node)}", where, "percentage is 0 when the total is 0", f"percentage returns {o.value!r} when the total is 0 (must be 0, and must not divide)")
             else:
+                # with completed and total unknown the percentage cannot be one fixed number: a path that returns a constant
+                # answers from something else than completed / total (a sticky `finished` flag, a cached value)
+                if iv is not None and iv[0] == iv[1] and not any("total" in c_ for c_ in o.path.conds[-1:]):
+                    ctx.violation(p.fq, f"{label}: {short(o.node)} [{' & '.join(o.path.conds)}]", where,
+                                  f"Task.percentage returns the constant {iv[0]} on the path [{' & '.join(o.path.conds)}] although the total is non-zero and completed is arbitrary there: the percentage is no longer completed / total (a task that finished and was then set back with update(completed=3) would still report this value)")
+                    continue
                 ok = iv is not None and iv[0] >= 0 and iv[1] <= 100
                 ctx.check(ok, p.fq, f"{label}: {short(o.node)} [{' & '.join(o.path.conds)}]", where, f"percentage within {o.value!r} ⊆ [0,100]",
                           f"percentage can return {o.value!r} (outside 0..100) on path [{' & '.join(o.path.conds)}]")
